@@ -86,6 +86,16 @@ CHECKS = {
             "Scripts over 2-4 actors of both kinds; the oracle is a one-holder model: open succeeds iff no holder, refusals are lock errors that change nothing on disk, a dropped or killed holder frees the directory, exactly one of several simultaneous opens wins.",
             "Advisory flock semantics of the host; holders run without background threads so refused opens can be compared against a quiescent snapshot.",
             "DESIGN.md 4 C18", "pdbv"),
+    "C05": ("exploration",
+            "generated-schedule testing: proptest-generated multi-thread workloads x seeded shuttle schedules (random + PCT) over the unmodified crate (feature loom mapped onto shuttle), real worker loops via verif hooks; interval oracle from harness atomics (no stale / future / torn / non-monotonic read)",
+            "Thread schedules are generated inputs (seed-replayable) at the granularity of the crate's lock and condvar operations, with the four real worker loops or a generated stage order; every read is checked against the interval of transactions that could legally be visible, and per-reader monotonicity / atomic visibility.",
+            "Controls scheduling only at lock/condvar operations; library built with feature loom; writers own disjoint key sets.",
+            "DESIGN.md 4 C05", "pdbv-shuttle"),
+    "C11": ("exploration",
+            "model-based stateful PBT with a kept tree-reader lock (stepping mode: deferral really happens and is re-queued) + forest model with postponed removal; shuttle schedules for the concurrent variant",
+            "While the reader lock is held the tree must read back as at lock time through the locked reader whatever is committed and processed meanwhile (dereference, reuse of its nodes, other writes, pipeline steps); after release the final state of all columns must equal the commit-order model. One known finding (deferral re-orders the whole transaction) is excluded by construction, counted, and reproduced by a fixed regression history.",
+            "The client holds the tree's read lock while committing insertions that reuse its nodes.",
+            "DESIGN.md 4 C11", "pdbv"),
 }
 
 NOT_YET = {
@@ -129,7 +139,7 @@ def main():
         "engines": [
             {"name": "pdbv", "path": "harness", "serves_properties": [c["property_id"] for c in checks if c["engine"] == "pdbv"],
              "kind_free_text": "proptest-driven model-based / fault-enumeration harness (std threads, stepping API, crash images, raw layout reader)"},
-            {"name": "pdbv-shuttle", "path": "shuttle", "serves_properties": [c["property_id"] for c in checks if c["engine"] == "pdbv-shuttle"],
+            {"name": "pdbv-shuttle", "path": "shuttle", "serves_properties": [c["property_id"] for c in checks if c["engine"] == "pdbv-shuttle"] + (["C11"] if any(c["property_id"] == "C11" for c in checks) else []),
              "kind_free_text": "shuttle randomized/PCT schedules over parity-db built with feature loom (loom -> shuttle shim), real worker loops via verif hooks"},
             {"name": "fuzz", "path": "fuzz", "serves_properties": [c["property_id"] for c in checks if c["engine"] == "fuzz"],
              "kind_free_text": "cargo-fuzz (libFuzzer, ASan) targets"},
